@@ -470,6 +470,7 @@ func (r *yieldRewriter) rewriteSwitchStmt(
 			x,
 			body,
 		)
+		children = r.combineIfNecessary(children) // for init containing yield (YieldFrom: a loop)
 		children.push(switchStmt, kindTrival)
 		return children
 	}
